@@ -1,7 +1,10 @@
 #!/bin/sh
-# tools/try_seed.sh <patch.diff> <prop> [tier] : apply a seeded change to /repo, run the check, undo the change
-P=$1; PROP=$2; TIER=${3:-quick}
-if [ -n "$(git -C /repo status --porcelain)" ]; then echo "/repo has uncommitted changes: refusing (try_seed resets the working tree)"; exit 7; fi
-cd /repo && git apply "$P" || { echo "patch does not apply"; exit 9; }
-cd /verif && ./check $PROP --tier $TIER --no-evidence 2>&1 | grep -E "VIOLATION|failed obligation|native contract|tier=" | head -${4:-6}
-cd /repo && git checkout -- . && git status --short | head -3
+# tools/try_seed.sh <patch.diff> <prop> [tier] [lines] : apply a seeded change to a SCRATCH worktree of /repo's HEAD,
+# run the check of <prop> on that worktree (VERIF_REPO), remove the worktree. /repo itself is never touched.
+P=$(readlink -f "$1"); PROP=$2; TIER=${3:-quick}
+HERE="$(cd "$(dirname "$0")" && pwd)"
+export VERIF_SCRATCH=/var/tmp/verif_try_$$
+S=$("$HERE/scratch_repo.sh" make) || exit $?
+trap '"$HERE/scratch_repo.sh" drop' EXIT INT TERM HUP
+git -C "$S" apply "$P" || { echo "patch does not apply"; exit 9; }
+cd "$HERE/.." && VERIF_REPO="$S" ./check $PROP --tier $TIER --no-evidence 2>&1 | grep -E "VIOLATION|failed obligation|native contract|tier=" | head -${4:-6}
